@@ -112,8 +112,16 @@ def check_protected(cr, t, inner_len=None):
     """One protected message under a real context: ICV, length field, padding, round trip.  [(sig, detail)]"""
     import message as M
     enc, dec, mac = K.real_prims(cr)
-    bs, icv = cr.cipher.block_size, cr.integrity.hash_size
     out = []
+    # the negotiated truncation lengths, stated independently of crypto.py: RFC 2404 (HMAC-SHA1-96: 12 octets),
+    # RFC 4868 (HMAC-SHA2-256-128: 16, HMAC-SHA2-512-256: 32); AES-CBC block: 16
+    NEGOTIATED_ICV = {2: 12, 12: 16, 14: 32}
+    integ_id = next((i for i, (h, bits) in type(cr.integrity)._digestmod_dict.items()
+                     if h is cr.integrity.hasher and bits == cr.integrity.keybits), None)
+    bs, icv = 16, NEGOTIATED_ICV.get(int(integ_id) if integ_id is not None else -1, cr.integrity.hash_size)
+    if (cr.cipher.block_size, cr.integrity.hash_size) != (bs, icv):
+        out.append(('protect:sizes', f'block size / checksum length used by the code are {cr.cipher.block_size} / '
+                    f'{cr.integrity.hash_size}, the negotiated algorithm (IntegId {integ_id}) has {bs} / {icv}'))
     try:
         data = bytes(K.build_msg(t, cr).to_bytes())
     except Exception as ex:     # noqa
